@@ -31,9 +31,11 @@ fn world(style: &str, aliased: bool) -> Hierarchy<Arc<Relation>> {
 
 fn world0(style: &str) -> Hierarchy<Arc<Relation>> {
     let t = |name: &str, c: &str| -> Relation {
-        let mut cols = vec![("pu", DataType::integer_interval(0, 5)), ("k", DataType::integer_interval(0, 3)), (c, DataType::optional(DataType::integer_interval(-3, 3)))];
-        if style == "weight" { cols.push(("wt", DataType::integer_interval(1, 3))); }
-        if style == "fk" && name == "ta" { cols.push(("rid", DataType::integer_interval(0, 20))); }
+        // style `uniq`: the column k is declared UNIQUE in both protected tables (and the data honours it)
+        let kcol = if style == "uniq" { ("k", DataType::integer_interval(0, 9), Some(qrlew::relation::Constraint::Unique)) } else { ("k", DataType::integer_interval(0, 3), None) };
+        let mut cols = vec![("pu", DataType::integer_interval(0, 5), None), kcol, (c, DataType::optional(DataType::integer_interval(-3, 3)), None)];
+        if style == "weight" { cols.push(("wt", DataType::integer_interval(1, 3), None)); }
+        if style == "fk" && name == "ta" { cols.push(("rid", DataType::integer_interval(0, 20), None)); }
         Relation::table().name(name).schema(cols.into_iter().collect::<qrlew::relation::Schema>()).size(100).build() };
     let pp: Relation = Relation::table().name("pp").schema(vec![("k", DataType::integer_interval(0, 3)), ("w", DataType::integer_interval(0, 9))].into_iter().collect::<qrlew::relation::Schema>()).size(100).build();
     let mut v = vec![(vec!["ta".to_string()], Arc::new(t("ta", "x"))), (vec!["tb".to_string()], Arc::new(t("tb", "y"))), (vec!["pp".to_string()], Arc::new(pp))];
@@ -84,14 +86,15 @@ fn emit(t: &J, ctes: &mut Vec<String>) -> String {
 }
 
 pub fn gen(rng: &mut Rng, _k: usize, _tier: &str) -> J {
-    let style = *rng.pick(&["own", "own", "nohash", "weight", "fk", "fk"]);
+    let style = *rng.pick(&["own", "own", "nohash", "weight", "fk", "fk", "uniq"]);
     let depth = 1 + rng.below(3) as u32;
     let tree = gen_tree(rng, depth, if style == "fk" { 3 } else { 2 });
     // raw rows: ta / tb = [pu, k, x|null, extra] where extra is the weight (style weight) or, for ta, the row id (style fk)
     let mut next_rid = 0i64;
     let mut table = |rng: &mut Rng, is_ta: bool| -> Vec<J> { (0..rng.below(9)).map(|_| { let extra = if style == "weight" { json!(rng.range(1, 3)) } else if style == "fk" && is_ta { next_rid += 1 + rng.below(2) as i64; json!(next_rid) } else { J::Null };
         json!([rng.below(4), rng.below(4), if rng.chance(1, 8) { J::Null } else { json!(rng.range(-3, 3)) }, extra]) }).collect() };
-    let ta = table(rng, true); let tb = table(rng, false);
+    let mut ta = table(rng, true); let mut tb = table(rng, false);
+    if style == "uniq" { for t in [&mut ta, &mut tb] { let mut ks: Vec<i64> = (0..10).collect(); for r in t.iter_mut() { let i = rng.below(ks.len() as u64) as usize; r[1] = json!(ks.remove(i)); } } }
     // tc rows refer to a row id of ta, to no row at all (dangling), or to nothing (NULL)
     let rids: Vec<i64> = ta.iter().filter_map(|r| r[3].as_i64()).collect();
     let tc: Vec<J> = if style == "fk" { (0..rng.below(9)).map(|_| { let r = if rng.chance(1, 8) { J::Null } else if rng.chance(1, 8) || rids.is_empty() { json!(19) } else { json!(*rng.pick(&rids)) };
